@@ -39,7 +39,7 @@ template <typename T> T parse_val(const std::string& s) {
         if (s=="nan") return std::numeric_limits<T>::quiet_NaN();
         if (s=="inf") return std::numeric_limits<T>::infinity();
         if (s=="-inf") return -std::numeric_limits<T>::infinity();
-        return (T)std::stod(s);
+        return (T)std::strtod(s.c_str(), nullptr);   // not stod: it throws on denormals
     } else if constexpr (std::is_unsigned_v<T>) {
         return (T)std::stoull(s);
     } else {
